@@ -37,7 +37,7 @@ func shutdown(en *tl.Engine) {
 			}
 			en.IdleAfterWork(c[0], c[1], 0)
 			en.IdleAfterWork(c[0], c[1], 2+c[1])
-			for v := 0; v < 3; v++ {
+			for v := 0; v < 8; v++ {
 				en.PushAfterCancelRoom(c[0], c[1], v)
 			}
 		}
